@@ -100,6 +100,8 @@ class Lib:
     def parent_dir_of_loc(self, loc):
         kind = T.l_kind(loc)
         e = ANCHOR_DIR[A_EXT]
+        e = z3.If(z3.And(kind == T.K_EXT, z3.PrefixOf(z3.StringVal("<root>/"), T.l_k1(loc))),
+                  ANCHOR_DIR[A_ROOT], e)
         e = z3.If(kind == T.K_YAML, ANCHOR_DIR[A_ROOT], e)
         for a, k in TMP_KIND.items():
             e = z3.If(kind == k, ANCHOR_DIR[a], e)
@@ -114,6 +116,13 @@ class Lib:
             t = p.term if isinstance(p, VStr) else p.s
             if t.eq(sp) and (isinstance(p, VStr) or it.ctx.implied(p.tag == T_STR)):
                 return VPath(A_ROOT, (), pathobj=False)
+            # <store path> + "/<name>"
+            if z3.is_app(t) and t.decl().kind() == z3.Z3_OP_SEQ_CONCAT and t.num_args() == 2 \
+                    and t.arg(0).eq(sp) and z3.is_string_value(t.arg(1)) \
+                    and t.arg(1).as_string().startswith("/"):
+                name = t.arg(1).as_string()[1:]
+                if "/" not in name and name:
+                    return VPath(A_ROOT, (("lit", name),), pathobj=False)
         return p
 
     def path_loc(self, it, p, what="file"):
@@ -142,6 +151,9 @@ class Lib:
             return T.loc(TMP_KIND[a], parts[0][1], marks=p.marks)
         if a == A_ROOT and parts == (("lit", "hashstore.yaml"),):
             return T.loc(T.K_YAML, marks=p.marks)
+        if a == A_ROOT and kinds == ["lit"] and (A_ROOT, parts[0][1]) not in CHILD:
+            # another plain file directly under the store root (e.g. the client's log file)
+            return T.loc(T.K_EXT, z3.StringVal("<root>/" + parts[0][1]), marks=p.marks)
         if a == A_EXT and kinds == ["str"]:
             return T.loc(T.K_EXT, parts[0][1], marks=p.marks)
         if a == A_EXT and kinds == ["loc"]:
